@@ -475,10 +475,16 @@ def run(ctx):
                 ctx.notes.append("case generation failed: %r" % e)
                 continue
             ctx.stat("entered-nodes<=10" if n_ent <= 10 else ("entered-nodes<=40" if n_ent <= 40 else "entered-nodes>40"))
+            first = True
             for c in cases:
                 req, out = run_real(text, kw, c)
                 reqs.append(req)
                 meta.append((text, kw, c, out))
+                if first and "method" not in req:
+                    # hypothesis `WellShaped table t` of wellShaped_visit_ok, on the generic tree of this parsed document
+                    first = False
+                    reqs.append({"op": "shape", "tree": req["tree"]})
+                    meta.append((text, kw, {"what": "shape"}, {}))
                 # the SPECIFICATION `Spec.editAt` against the real result (delete / replace at one position)
                 if (c.get("what") in ("delete", "replace", "replace-other") and c.get("path") and "err" not in out
                         and (exhaustive or ctx.rng.random() < 0.35)):
@@ -609,6 +615,14 @@ def _register_later(ctx, text, kw, n):
 
 
 def compare(ctx, text, kw, case, out, ans):
+    if case.get("what") == "shape":
+        ctx.count()
+        ctx.stat("well-shaped" if ans.get("shape") is True else "ill-shaped")
+        if ans.get("shape") is not True:
+            ctx.fail("corr:shape:ill-shaped", "a document produced by the real parser does not pass `WellShaped table` (the premise of "
+                     "wellShaped_visit_ok): the completion of its identity visit is not covered by the theorem", {"text": text, "kw": kw},
+                     kind="correspondence")
+        return
     ctx.count()
     what = case.get("what", "identity")
     ctx.stat("case:" + what)
